@@ -30,6 +30,7 @@ import (
 	"regexp"
 	"strconv"
 	"strings"
+	"unicode/utf8"
 
 	antlr "github.com/antlr/antlr4/runtime/Go/antlr/v4"
 	"github.com/cockroachdb/apd/v2"
@@ -1120,6 +1121,9 @@ func parseSmallUint(str string) uint64 {
 
 func parseHexCodepoint(str string) rune {
 	if v, err := strconv.ParseUint(str, 16, 32); err == nil {
+		if !utf8.ValidRune(rune(v)) {
+			panic(fmt.Errorf("%v is not a valid unicode codepoint", str))
+		}
 		return rune(v)
 	} else {
 		panic(err)
